@@ -279,7 +279,7 @@ def run(chk: core.Check, pid: str):
                             "classes": PROFILES[prof][0]}
     c = allcases[len(allcases) // 2]
     chk.sample({"heap": c["h"], "root": c["root"], "pairs": c["pairs"][:3], "n_variations": len(c["vars"])})
-    poolsets = ["plain", "adversarial", "sets"] if quick else ["plain", "adversarial", "adversarial2", "adversarial3", "adversarial4", "sets"]
+    poolsets = ["plain", "adversarial", "sets", "sets2"] if quick else ["plain", "adversarial", "adversarial2", "adversarial3", "adversarial4", "sets", "sets2"]
     if pid == "C02":
         poolsets = ["plain"] if quick else ["plain", "adversarial"]
     for ps in poolsets:
@@ -289,11 +289,22 @@ def run(chk: core.Check, pid: str):
             for clause, detail, case in viol:
                 chk.add(core.Violation(clause, case, detail))
         chk.replayed += len(allcases)
+    if pid == "C02":
+        # == must not fall for property values that Python itself calls equal across types (1 / True / 1.0 ...): the
+        # property-rich profile with the look-alike pools
+        pc = gen_cases(chk, "props", PROFILES["props"][4] if quick else PROFILES["props"][5])
+        for ps in (["adversarial"] if quick else ["adversarial", "adversarial2", "adversarial4"]):
+            for viol, n, nontriv in core.parallel(_replay, pc, {"poolset": ps, "pid": pid}):
+                chk.evaluations += n
+                chk.nontrivial |= nontriv
+                for clause, detail, case in viol:
+                    chk.add(core.Violation(clause, case, detail))
+            chk.replayed += len(pc)
     chk.exhaustive = True
     if pid == "C01":
         props_cases = [c for c in allcases if any(r["c"] in ("Val", "Two", "SubLeaf") for r in norm_heap(c["h"]).values())]
         sub = props_cases[: 400 if quick else 4000] + allcases[: 300 if quick else 3000]
-        for ps in (["sets", "adversarial"] if quick else ["sets", "adversarial", "adversarial2", "plain"]):
+        for ps in (["sets", "sets2", "adversarial"] if quick else ["sets", "sets2", "adversarial", "adversarial2", "plain"]):
             cross_process(chk, sub, ps)
     # code -> spec
     rng = random.Random(chk.seed)
